@@ -26,9 +26,14 @@ vars == <<now, last, up, sends, will, hist>>
 
 Init == now = 0 /\ last = 0 /\ up = TRUE /\ sends = 0 /\ will = FALSE /\ hist = <<>>
 
+\* the last thing the client sent was the beginning of a packet ("part1": its first byte, "part3": a PUBLISH header
+\* announcing more than follows): these are bytes like any others (the deadline counts from them), and the rest never comes
+Partial(k) == k \in {"part1", "part3"}
+MidPacket == hist # <<>> /\ Partial(hist[Len(hist)].kind)
+
 \* the client lets g grid units pass and then sends a packet of the given kind
 Send(g, kind) ==
-  /\ up /\ sends < MaxSends /\ g \in Gaps
+  /\ up /\ sends < MaxSends /\ g \in Gaps /\ ~MidPacket
   /\ now' = now + g /\ last' = now + g /\ sends' = sends + 1
   /\ hist' = Append(hist, [gap |-> g, kind |-> kind, expect |-> "up"])
   /\ UNCHANGED <<up, will>>
